@@ -535,11 +535,26 @@ Definition case_events (k : case) : list fevent :=
   flat_map (ievents (k_funcs k)) (k_forests k)
   ++ map (fun p => {| fe_kind := fst p; fe_func := nth (snd p) (k_funcs k) dummy_func |}) (k_raw k).
 
-(* correspondence: model automaton + address table vs implementation *)
-Definition agrees (fixed : bool) (k : case) : bool :=
+(* proposed-fixes/C19-2.diff: a `return` whose `call` was never seen is ignored before anything else
+   happens (a pure pre-filter of the event stream; identity on well-formed streams) *)
+Fixpoint depth_guard (d : nat) (evs : list fevent) : list fevent :=
+  match evs with
+  | [] => []
+  | e :: r =>
+      match fe_kind e with
+      | Call => e :: depth_guard (S d) r
+      | Return => match d with O => depth_guard O r | S d' => e :: depth_guard d' r end
+      | _ => e :: depth_guard d r
+      end
+  end.
+
+(* correspondence: model automaton + address table vs implementation
+   (fixed: C19-1.diff applied; fixed2: C19-2.diff applied) *)
+Definition agrees (fixed fixed2 : bool) (k : case) : bool :=
   let c := mkcfg (k_env k) (k_lib k) fixed in
   let md := option_map main_dir_of (k_pymain k) in
-  let '(tab, _, hs) := arun c md [] st0 (case_events k) in
+  let evs := if fixed2 then depth_guard O (case_events k) else case_events k in
+  let '(tab, _, hs) := arun c md [] st0 evs in
   list_eqb ahook_eqb hs (map ahook_of (k_hooks k)) && list_eqb sym_eqb tab (k_symtab k).
 
 (* property checker on the implementation's output for a well-formed case (k_raw = []): the hook
